@@ -2047,6 +2047,10 @@ pub fn gen_c19(thorough: bool, _seed: u64) -> Vec<Episode> {
             eps.push(Episode { n, tys: "both", ops: vec![json!({"op": "rand_begin", "n": n, "threads": if n % 4 == 0 { 2 } else { 1 }, "count": 256, "inter": other})] });
         }
     }
+    // threads that live one after the other (each created after the previous one was joined)
+    for n in if thorough { vec![8usize, 9, 10, 11, 12] } else { vec![8usize, 11] } {
+        eps.push(Episode { n, tys: "both", ops: vec![json!({"op": "rand_begin", "n": n, "threads": 3, "count": 256, "serial": true})] });
+    }
     // threads that have drawn very different amounts before the batch (0, 1100, 2200, ... tables of the same size)
     for n in if thorough { vec![8usize, 10, 11, 12] } else { vec![10usize, 12] } {
         eps.push(Episode { n, tys: "both", ops: vec![json!({"op": "rand_begin", "n": n, "threads": 4, "count": 256, "skew": 1100 * (1usize << (12 - n))})] });
